@@ -9,6 +9,11 @@
    C13  at every mapping node:
           InsertKey  a foreign key first / in the middle / last          (closed key sets only); the foreign key is
                      an ordinary word or the unquoted YAML merge key `<<` (tag !!merge, still a key here)
+          InsertKey  (where = "casevariant") a known key of the mapping that is ABSENT from it, spelled in another
+                     letter case (UPPER / first letter flipped), in case-sensitive closed mappings: a foreign key
+          RenameKey  the key of entry i spelled in another letter case.  Case-sensitive closed mapping: it is a
+                     foreign key now (reported at the key).  Case-insensitive mapping: the same key, nothing may
+                     change (drift-only: the property does not say so)
           DupKey     a copy of entry i (key in the same / UPPER / Mixed case, value copied) directly
                      after entry i or at the end of the mapping
           DropKey    removal of a key without which no mandatory alternative is satisfied; also together with
@@ -36,14 +41,18 @@ EXTENDS Schema
 
 CONSTANTS Props,       \* subset of {"C13", "C03"}
           BaseSet,     \* base indices to walk
-          Variants,    \* placeholder variants, subset of 1..5
+          Variants,    \* placeholder variants, subset of 1..8
           Styles,      \* quoting of the placeholder: subset of {"auto", "single", "double"}
           Configs,     \* subset of {"max", "min", "rev", "revall", "exprbefore"}
           Cases,       \* subset of {"same", "upper", "mixed"}
           SensorModes  \* subset of BOOLEAN
 
-Placeholder == << "${{ a.. }}", "${{ }}", "${{ 'x }}", "x ${{ ! }} y", "${{ 1 +" >>
-WholeVariants == {1, 2, 3}
+\* one placeholder per family of malformation, so that C03 does not hang on one path of the expression parser:
+\* 1 unexpected token, 2 empty placeholder, 3 lexical error (unterminated string), 4 unexpected end inside text,
+\* 5 unterminated placeholder, 6 unclosed parenthesis, 7 trailing comma in a call, 8 lexical error (illegal character)
+Placeholder == << "${{ a.. }}", "${{ }}", "${{ 'x }}", "x ${{ ! }} y", "${{ 1 +", "${{ format('a' }}",
+                  "${{ format('a',) }}", "${{ a # b }}" >>
+WholeVariants == {1, 2, 3, 6, 7, 8}
 Unterminated == {5}      \* no closing }}: literal text for GitHub, so only "a diagnostic at the scalar" is demanded
 ForeignKey == "verif-foreign-key"
 ForeignKeys == {ForeignKey, "<<"}      \* "<<" written plain is the YAML merge key (tag !!merge)
@@ -230,6 +239,31 @@ DropInsVector(r, i, sens) ==
    exp |-> [at |-> r.miss, cls |-> IF r.keyErrAt = "item" THEN "schedule-item" ELSE "missing-key",
             siblings |-> FALSE]]
 
+\* a known but absent key in another letter case: a foreign key of a case-sensitive closed mapping
+VariantInsVector(r, f, case, sens) ==
+  LET so == SOps(r, sens) IN
+  [prop |-> "C13", h |-> C13Common(r, "InsertKey", sens), where |-> "casevariant", key |-> r.fields[f].key, case |-> case,
+   refops |-> so,
+   ops |-> so \o <<[op |-> "ins", path |-> path, at |-> NKids(Here) + 1, key |-> r.fields[f].key, case |-> case,
+                    val |-> [k |-> "s", v |-> "x", st |-> ""]]>>,
+   exp |-> [at |-> r.keyErrAt, cls |-> IF r.keyErrAt = "item" THEN "schedule-item" ELSE "unknown-key",
+            siblings |-> TRUE]]
+
+\* the key of entry i in another letter case
+RenameVector(r, i, case, sens) ==
+  LET so == SOps(r, sens) IN
+  [prop |-> "C13", h |-> C13Common(r, "RenameKey", sens), where |-> "", key |-> Here.p[i][1], case |-> case,
+   entry |-> Append(path, i),
+   refops |-> so,
+   ops |-> so \o <<[op |-> "key", path |-> Append(path, i), case |-> case]>>,
+   exp |-> IF r.cs
+             THEN [at |-> IF r.keyErrAt = "item" THEN "item" ELSE "entrykey",
+                   cls |-> IF r.keyErrAt = "item" THEN "schedule-item" ELSE "unknown-key",
+                   \* the entry is no longer what it was and diagnostics derived from it may sit elsewhere (job id,
+                   \* missing-key reports): no claim about the siblings here - InsertKey and DupKey make that claim
+                   siblings |-> FALSE, same |-> FALSE]
+             ELSE [at |-> "entrykey", cls |-> "none", siblings |-> FALSE, same |-> TRUE]]
+
 \* two mandatory keys of the satisfied alternative dropped at once: both must be reported
 BreaksPair(r, k1, k2) == /\ k1 \in ReqKeys(r, Here) /\ k2 \in ReqKeys(r, Here)
                          /\ ~\E a \in DOMAIN r.req : r.req[a] \subseteq (KeysOf(Here) \ {k1, k2})
@@ -256,6 +290,14 @@ EmitC13 ==
                /\ w = "end" => i < n
                /\ case # "same" => ~(r.cs /\ ~Closed(r))     \* `on`: another spelling is another event, not a key error
                /\ tc' = ToJson(DupVector(r, i, case, w, IF w = "after" THEN i + 1 ELSE n + 1, sens))
+       \/ /\ Closed(r) /\ r.cs
+          /\ \E f \in DOMAIN r.fields, case \in Cases \ {"same"} :
+               /\ r.fields[f].key \notin KeysOf(Here)
+               /\ tc' = ToJson(VariantInsVector(r, f, case, sens))
+       \/ \E i \in 1 .. n, case \in Cases \ {"same"} :
+               /\ ~(r.cs /\ ~Closed(r))      \* `on`: another spelling is another event
+               /\ r.cs => IsFixedKey(r, Here.p[i][1])
+               /\ tc' = ToJson(RenameVector(r, i, case, sens))
        \/ \E i \in 1 .. n :
                /\ Breaks(r, Here.p[i][1])
                /\ tc' = ToJson(DropVector(r, i, sens))
